@@ -53,9 +53,16 @@ def run_in_kernel(ch, knobs, main_fn):
 
 def result(k, violations, key=None, **extra):
     vs = list(violations)
+    probes = dict(k.probes)
     if k.hang:
         vs.append({"sig": "hang", "detail": k.hang})
-    res = {"violations": vs, "faults": dict(k.fault_counts), "probes": dict(k.probes), "sim_ns": k.sim_elapsed_ns,
+    elif k.capped:
+        # the run was cut off by the step or simulated-time budget and nothing was found waiting for good: the scenario
+        # did not finish, what the oracles saw is a half-done run - inconclusive, counted, never reported
+        vs = []
+        key = None
+        probes = {"inconclusive_capped_runs:%s" % k.capped: 1}
+    res = {"violations": vs, "faults": dict(k.fault_counts), "probes": probes, "sim_ns": k.sim_elapsed_ns,
            "steps": k.yields, "digest": k.digest(), "key": key, "order": k.order_sig.hexdigest(),
            "switches": k.switches, "unsafe_skips": k.unsafe_skips, "capped": k.capped, "leaked": k.leaked}
     res.update(extra)
